@@ -108,13 +108,29 @@ def violations_of(res):
 # adapter: real core > HexAssembly > HexBlock > component trees
 # ------------------------------------------------------------------------------------------------------------
 class InvAdapter:
-    def __init__(self, tree, families, weight_free=False):
+    def __init__(self, tree, families, weight_free=False, narrow=False):
         self.tree, self.families, self.weight_free = tree, list(families), weight_free
+        # narrow (quick tier): after an edit at x every query is compared at x, below x and above x; elsewhere only the components'
+        # own densities and keys (the rest of those nodes is compared on the edges that edit them or their relatives)
+        self.narrow = narrow
         self.worlds = {}
         self.count = 0
         self.K, self.CM2 = units()
         nl, nb, na = tree["nleaf"], tree["nblk"], tree["nasm"]
         self.nnode = nl + nb + na + 1
+        par = tree["parent"]
+        self.near = {}
+        for x in range(1, self.nnode + 1):
+            up, y = set(), x
+            while y < self.nnode:
+                y = par[y - 1]
+                up.add(y)
+            down, todo = set(), [x]
+            while todo:
+                y = todo.pop()
+                down.add(y)
+                todo += [c for c in range(1, self.nnode) if par[c - 1] == y]
+            self.near[x] = up | down
         self.kind = {}
         for x in range(1, self.nnode + 1):
             self.kind[x] = "leaf" if x <= nl else "blk" if x <= nl + nb else "asm" if x <= nl + nb + na else "core"
@@ -136,12 +152,14 @@ class InvAdapter:
                 w.node[b].setHeight(h)
         gb.set_composition(w, [{NAMES[k]: v for k, v in n.items()} for n in N], H)
         w.err = ""
+        w.last_x = None
         return w
 
     def apply(self, w, a):
         o = w.node[a["x"]] if "x" in a else None
         n = a["n"]
         w.err = ""
+        w.last_x = a.get("x")
         K = self.K
         try:
             if n == "SetN":
@@ -219,14 +237,26 @@ class InvAdapter:
             q["mf"] = {"inconsistent": {"getMassFracs": q["mf"], "getMassFrac": one}}
         return q
 
-    def project(self, w):
-        return {"err": w.err, "q": [self.node_obs(w.node[x]) for x in range(1, self.nnode + 1)]}
+    def far_obs(self, o, x):
+        if self.kind[x] != "leaf":
+            return {}
+        d = o.p.numberDensities
+        return {"nucs": [NAMES[k] in d for k in ORDER], "nd": {k: float(d.get(NAMES[k], 0.0)) for k in ORDER}}
 
-    def expected(self, obs, err):
+    def project(self, w):
+        near = self.near.get(w.last_x) if self.narrow and w.last_x is not None else None
+        return {"err": w.err, "q": [self.node_obs(w.node[x]) if near is None or x in near else self.far_obs(w.node[x], x)
+                                    for x in range(1, self.nnode + 1)]}
+
+    def expected(self, obs, err, act=None):
         """The specification's observation as floats; -1 marks what the header of Inventory.tla declares not compared."""
         q = []
-        for o in fl(obs):
+        near = self.near.get(act.get("x")) if self.narrow and act and act.get("x") is not None else None
+        for x, o in enumerate(fl(obs), start=1):
             o = dict(o)
+            if near is not None and x not in near:
+                q.append({k: o[k] for k in ("nucs", "nd")} if self.kind[x] == "leaf" else {})
+                continue
             o.pop("evol", None)
             if o["dens"] == -1.0:
                 del o["dens"]
@@ -244,7 +274,7 @@ def graph_of(res, ad, weight_free=False):
     for p in res.prints:
         if isinstance(p, dict) and "act" in p and rp.skey(p["to"]) in obs:
             e = dict(p)
-            e["obs"] = ad.expected(obs[rp.skey(p["to"])], p["err"])
+            e["obs"] = ad.expected(obs[rp.skey(p["to"])], p["err"], p["act"])
             edges.append(e)
     g = rp.Graph(edges)
     if weight_free:
@@ -445,7 +475,7 @@ def area_cache(rep):
     ad = AreaAdapter()
     chosen, first_divs = None, None
     for v in ("asis", "keyed"):
-        res = run_tlc("AreaCache", "AreaCache_emit.cfg", {"C02_AREAKEY": v}, workers=1, coverage=False)
+        res = run_tlc("AreaCache", "AreaCache_emit.cfg", {"C02_AREAKEY": v}, workers=1, coverage=False, extra=("-continue",))
         edges = [dict(p, obs={"act": p["to"]["act"]}) for p in res.prints if isinstance(p, dict) and "act" in p and "to" in p]
         g = rp.Graph(edges)
         n, nt, divs = rp.replay_graph(g, ad)
@@ -453,7 +483,7 @@ def area_cache(rep):
             raise tlc.MachineryError("AreaCache: no edges")
         if not divs:
             chosen = v
-            rep.add_tlc("edges:AreaCache_emit.cfg[%s]" % v, res)
+            rep.add_tlc("exhaustive+edges:AreaCache_emit.cfg[%s]" % v, res)
             rep.add_replay("area-cache-histories", n, nt,
                            "every query history (getArea hot/cold, Assembly.getVolume, Block.getVolume, clearCache) of length <= 4 "
                            "executed on a real HexAssembly; each answer classified as the hot or the cold area")
@@ -468,8 +498,7 @@ def area_cache(rep):
     rep.note("Block.getArea cache design implemented by the code under test: %s" % chosen)
     env = {"C02_AREAKEY": chosen}
     if not _SELFTEST:
-        res = run_tlc("AreaCache", "AreaCache_mc.cfg", env, workers=1, want_prints=False, coverage=False, extra=("-continue",))
-        rep.add_tlc("exhaustive:AreaCache_mc.cfg[%s]" % chosen, res)
+        res = run_tlc("AreaCache", "AreaCache_emit.cfg", env, workers=1, coverage=False, extra=("-continue",))  # cached
         what = {
             "AnswerIsWhatWasAsked": "Block.getArea(cold=True) returns the cached hot area after getArea() (and vice versa): the cache key ignores `cold`",
             "AssemblyVolumeIsSumOfBlocks": "after clearCache(); getArea(cold=True) the assembly volume is built from the cold area and differs "
@@ -488,7 +517,7 @@ ACTIONS = ("BSetN", "BUpdateN", "BSetNs", "BScale", "BClear", "BAddMass", "BRemo
            "BAddMasses", "BSetMasses", "BSetHeight")
 
 
-def replay_config(rep, cfg, env, families, label, max_edges=None, seed=0, weight_free_too=True, dt=True):
+def replay_config(rep, cfg, env, families, label, max_edges=None, seed=0, weight_free_too=True, dt=True, narrow=False):
     """emit every state/edge of one configuration and execute it on the real trees"""
     res = run_tlc("Inventory_mc", cfg, env, workers=1, coverage=False)
     if res.violation:
@@ -501,7 +530,7 @@ def replay_config(rep, cfg, env, families, label, max_edges=None, seed=0, weight
     K, _ = units()
     out = []
     with weights(tree["w"]):
-        ad = InvAdapter(tree, families)
+        ad = InvAdapter(tree, families, narrow=narrow)
         g, obs = graph_of(res, ad)
         n, nt, divs = rp.replay_graph(g, ad, max_edges=max_edges, rng=random.Random(seed))
         if n == 0:
@@ -526,7 +555,7 @@ def replay_config(rep, cfg, env, families, label, max_edges=None, seed=0, weight
             rep.sample({"kind": "edge", "cfg": cfg, "act": e["act"], "err": e["err"], "expected_core": e["obs"]["q"][-1]})
     if weight_free_too:
         # second pass, untouched atomic weights: weight-free edits and observables only
-        ad2 = InvAdapter(tree, families, weight_free=True)
+        ad2 = InvAdapter(tree, families, weight_free=True, narrow=narrow)
         g2, _ = graph_of(res, ad2, weight_free=True)
         n2, nt2, divs2 = rp.replay_graph(g2, ad2, max_edges=max_edges, rng=random.Random(seed))
         rep.add_replay(label + ":real-weights", n2, nt2,
@@ -548,15 +577,19 @@ DESIGNS = (  # tried in this order; the first is the code as it is
 )
 
 
+PROBE_NODES = (1, 5, 7)  # third-core tree: a component of a cut block, of an uncut block, a cut block
+
+
 def choose_designs(rep):
-    """Which of the documented design alternatives of Inventory.tla does the code implement?  Decided by conformance on a small
-    probe configuration (edits and queries at a component of a cut block, of an uncut block, and at a cut block)."""
+    """Which of the documented design alternatives of Inventory.tla does the code implement?  Decided by conformance on the edges
+    of the third-core emission that edit a component of a cut block, a component of an uncut block, and a cut block."""
     for env in DESIGNS:
-        res = run_tlc("Inventory_mc", "Inventory_probe_emit.cfg", env, workers=1, coverage=False)
+        res = run_tlc("Inventory_mc", "Inventory_core_acct.cfg", env, workers=1, coverage=False)
         tree = tree_of(res)
         with weights(tree["w"]):
-            ad = InvAdapter(tree, ["circle"])
+            ad = InvAdapter(tree, ["circle"], narrow=True)
             g, _ = graph_of(res, ad)
+            g.edges = [e for e in g.edges if e["act"].get("x") in PROBE_NODES]
             n, nt, divs = rp.replay_graph(g, ad)
         if n and not divs:
             return dict(env)
@@ -578,7 +611,8 @@ def run(rep, tier, seed):
     empty_density_probe(rep)
 
     # 1. exhaustive TLC: read-back clauses on every edge two edits deep (accounting clauses are checked in step 2's runs)
-    mc = ["Inventory_core_mc%s.cfg"] + (["Inventory_blk_mc%s.cfg", "Inventory_edge_mc%s.cfg", "Inventory_core_geom_mc.cfg"] if thorough else [])
+    mc = ["Inventory_core_mc%s.cfg"] + (["Inventory_blk_mc%s.cfg", "Inventory_edge_mc%s.cfg", "Inventory_core_geom_mc.cfg",
+                                         "Inventory_core_inv_thorough.cfg", "Inventory_edge_inv_thorough.cfg"] if thorough else [])
     if not _SELFTEST:
         for cfg in mc:
             cfg = cfg % ("_thorough" if thorough else "") if "%s" in cfg else cfg
@@ -621,12 +655,12 @@ def run(rep, tier, seed):
     seen = set()
     for cfg, label in (("Inventory_blk_acct.cfg", "block-tree"), ("Inventory_core_acct.cfg", "third-core-tree"),
                        ("Inventory_edge_acct.cfg", "edge-assemblies-tree")):
-        names, _ = replay_config(rep, cfg, env, fams, label, seed=seed)
+        names, _ = replay_config(rep, cfg, env, fams, label, seed=seed, narrow=not thorough)
         seen |= names
     # histories three edits deep around a height change (edit above the block ; setHeight ; edit above it again): what a value
     # cached above the block across the geometry change would break
     names, _ = replay_config(rep, "Inventory_core_geom_emit%s.cfg" % ("_thorough" if thorough else ""), env, fams, "height-change-histories",
-                             seed=seed, dt=False, max_edges=(12000 if thorough else None))
+                             seed=seed, dt=False, max_edges=(12000 if thorough else 800), narrow=not thorough)
     seen |= names
     if thorough:
         for fam in fams:  # every family on every edge of the two deep emissions
@@ -642,7 +676,7 @@ def run(rep, tier, seed):
     # 3. code -> spec: random edit histories on the real trees, validated by TLC
     for tname, cfg in (("Core", "Inventory_core_trace.cfg"), ("Edge", "Inventory_edge_trace.cfg"))[: 2 if thorough else 1]:
         tree = tree_of(run_tlc("Inventory_mc", "Inventory_%s_acct.cfg" % tname.lower(), env, workers=1, coverage=False))
-        traces = trace_driver(tree, 150 if thorough else 40, 14 if thorough else 8, seed, tname)
+        traces = trace_driver(tree, 150 if thorough else 32, 14 if thorough else 8, seed, tname)
         bad, stats = tracecheck.validate("Inventory_trace", cfg, MODDIR, traces, timeout=3000, env=env)
         rep.add_tlc("trace-validation:" + cfg, stats["tlc"])
         rep.add_traces("random-edit-histories:" + tname, len(traces), sum(len(t["ev"]) for t in traces),
